@@ -32,8 +32,8 @@ ASSUMPTIONS = [
     "the cleaning filter is the element-wise maximum over the extra baselines of the reduced difference to the first baseline, floored at 0",
 ]
 FLOORS = {
-    "quick": {"trace_automaton": 350, "result_is_composition": 220, "baseline_maps_to_zero": 250, "probe_unchanged": 350, "diff_option_identities": 60},
-    "thorough": {"trace_automaton": 3500, "result_is_composition": 2200, "baseline_maps_to_zero": 2500, "probe_unchanged": 3500, "diff_option_identities": 600},
+    "quick": {"baseline_list_untouched": 350, "second_analysis_from_same_baselines": 100, "trace_automaton": 350, "result_is_composition": 220, "baseline_maps_to_zero": 250, "probe_unchanged": 350, "diff_option_identities": 60},
+    "thorough": {"baseline_list_untouched": 3500, "second_analysis_from_same_baselines": 1000, "trace_automaton": 3500, "result_is_composition": 2200, "baseline_maps_to_zero": 2500, "probe_unchanged": 3500, "diff_option_identities": 600},
 }
 DIFFS = ["absolute", "positive", "negative", "plain"]
 
@@ -91,11 +91,14 @@ def run_shard(spec, R):
         nextra = int(rng.integers(0, 4))
         use_real = bool(rng.random() < 0.3)
 
+        mixed = bool(rng.random() < 0.3)  # every image of the case (baselines, probe) draws its own dtype
+
         def rnd():
             full = shp + ((3,) if rgb else ())
-            if np.issubdtype(dtype, np.integer):
-                return rng.integers(0, np.iinfo(dtype).max, size=full, endpoint=True).astype(dtype)
-            return rng.random(full).astype(dtype)
+            dt = dtype if not mixed else [np.uint8, np.uint16, np.float32, np.float64][int(rng.integers(0, 4))]
+            if np.issubdtype(dt, np.integer):
+                return rng.integers(0, np.iinfo(dt).max, size=full, endpoint=True).astype(dt)
+            return rng.random(full).astype(dt)
 
         def image(arr):
             if rgb:
@@ -119,7 +122,7 @@ def run_shard(spec, R):
             res = Spy("restoration", lambda x: 0.5 * (x + np.roll(x, 1, axis=0))) if it["res"] else None
             mod = Spy("model", lambda x: 3.0 * x * x + x) if it["mod"] else None
         cfg = {"reduction": bool(it["red"]), "balancing": bool(it["bal"]), "restoration": bool(it["res"]), "model": bool(it["mod"]), "restoration->model": it["order"],
-               "diff option": it["diff"], "rgb": rgb, "dtype": np.dtype(dtype).name, "shape": list(shp), "extra_baselines": nextra, "real_stages": use_real, "offset_balancing": offset_bal}
+               "diff option": it["diff"], "rgb": rgb, "dtype": np.dtype(dtype).name if not mixed else "mixed:" + "/".join(a.dtype.name for a in base_arrs + [probe_arr]), "shape": list(shp), "extra_baselines": nextra, "real_stages": use_real, "offset_balancing": offset_bal}
         key = None
         if rgb and nextra > 0 and not (it["red"] and (not use_real or True) and _reduces(red)):
             key = "C13:cleaning_filter_needs_reduced_signal"
@@ -129,6 +132,9 @@ def run_shard(spec, R):
                            key=lambda e, w: key)
         if not ok:
             continue
+        # the caller's list of baselines is an argument like any other: same objects, same content afterwards
+        R.check(len(bases) == 1 + nextra and all(np.array_equal(b.img, a) and b.img.dtype == a.dtype for b, a in zip(bases, base_arrs)), "baseline_list_untouched",
+                lambda: {**cfg, "length_after": len(bases)})
         before = snap(probe)
         del trace[:]
         ok, out = R.guarded("call", lambda: ca(probe), key=lambda e, w: key)
@@ -139,7 +145,7 @@ def run_shard(spec, R):
         grp = f"{it['diff']}/{'rm' if it['order'] else 'mr'}"
 
         # ------------------------------------------------------------ oracle
-        fl = (lambda a: skimage.img_as_float(a)) if np.issubdtype(dtype, np.integer) else (lambda a: a)
+        fl = lambda a: skimage.img_as_float(a) if np.issubdtype(a.dtype, np.integer) else a  # noqa: E731
         b0 = fl(base_arrs[0])
 
         def difference(arr):
@@ -172,6 +178,16 @@ def run_shard(spec, R):
                     key=key, group=grp)
         else:
             R.ok("result_is_composition:real_stages_traced_only")
+
+        # a second analysis built from the same list of baselines behaves like the first
+        if nextra and ok and it["id"] % 2 == 0:
+            ok2, cb = R.guarded("construct", lambda: darsia.ConcentrationAnalysis(bases, red, bal, res, mod, None, **{"diff option": it["diff"], "restoration -> model": it["order"]}),
+                                key=lambda e, w: key)
+            if ok2:
+                ok2, out2 = R.guarded("call", lambda: cb(image(probe_arr.copy())), key=lambda e, w: key)
+                if ok2:
+                    R.check(np.array_equal(np.asarray(out2.img), np.asarray(out.img)), "second_analysis_from_same_baselines", cfg, key=key, group=grp)
+            del trace[len(tr):]
 
         # ----------------------------------------------------- trace automaton
         meth = [t for t in tr if t[0] == "method"]
